@@ -1111,8 +1111,9 @@ def _first_ifexp(expr, is_function_ref=lambda n: False):
         n = todo.pop(0)
         if isinstance(n, (ast.Lambda, ast.ListComp, ast.SetComp, ast.DictComp, ast.GeneratorExp)):
             continue
-        if isinstance(n, ast.IfExp) and (any(isinstance(x, ast.Call) for arm in (n.body, n.orelse) for x in ast.walk(arm)) or (is_function_ref(n.body) and is_function_ref(n.orelse))):
-            return n
+        if isinstance(n, ast.IfExp) and (any(isinstance(x, ast.Call) for arm in (n.body, n.orelse) for x in ast.walk(arm)) or (is_function_ref(n.body) and is_function_ref(n.orelse))
+                                         or not any(isinstance(x, ast.Call) and not (isinstance(x.func, ast.Name) and x.func.id in ("len", "isinstance")) for x in ast.walk(n.test))):
+            return n            # (a test without calls can be decided first without reordering any recorded call)
         todo.extend(ast.iter_child_nodes(n))
     return None
 
